@@ -71,7 +71,7 @@ func implDecode(b []byte, t reflect.Type) (out reflect.Value, n int, res string)
 	out = reflect.New(t.Elem())
 	var msg string
 	// the bytes come from the (possibly changed) encoder: a decoder that hangs or eats memory on them must not take the run down
-	if g := codecx.Guard(20*time.Second, 6<<30, func() {
+	if g := codecx.Guard(180*time.Second, 6<<30, func() {
 		res, msg = h.CatchMsg(func() string {
 			var err error
 			n, err = ua.Decode(b, out.Interface())
